@@ -13,7 +13,7 @@ PROP = {'title': 'Grid positions, offsets and ranges form an exact row-major bij
                'unsigned, unsigned char and std::size_t for the free functions, std::size_t for grid::object; oracle = nested loops over '
                'plain integers in harness/C08_common.hpp; sanitizer aborts are attributed to the announced case',
  'binaries': [{'name': 'C08',
-               'sources': ['harness/C08.cpp', 'harness/C08_pos.cpp', 'harness/C08_grid.cpp', 'harness/C08_ops.cpp', 'harness/C08_scale.cpp'],
+               'sources': ['harness/C08.cpp', 'harness/C08_pos.cpp', 'harness/C08_grid.cpp', 'harness/C08_ops.cpp', 'harness/C08_scale.cpp', 'harness/C08_hist.cpp', 'harness/C08_cat.cpp'],
                'libs': [],
                'flavour': 'asan'}],
  'deadline': {'quick': 240, 'thorough': 1200},
@@ -28,7 +28,13 @@ PROP = {'title': 'Grid positions, offsets and ranges form an exact row-major bij
          'each size type: contents, pos_range::size, range_size, range_dim, min_less_sup, offset of the last position and of the unit steps and in_range_dim around each axis end are '
          'compared with 128-bit arithmetic whenever every partial product is representable; pos_range/next_position are iterated on windows of 0..2 positions per axis placed at '
          'every lattice coordinate. grid::object copy/move construction and assignment and swap for all pairs of sizes 0..3 x 0..3, including an object and itself through a second '
-         'name (after self-assignment size(), content() and the stored cells must still agree; moved-from sources are not inspected). Oracle = explicit loops in storage order (x fastest). A case is non-trivial when at least two '
+         'name (after self-assignment size(), content() and the stored cells must still agree; moved-from sources are not inspected). Range histories (C08_hist.cpp): for every grid size (2-D extents 0..3, 1-D 0..4, 3-D 0..2; thorough one more) and every range specification '
+         '(whole grid, every (min, sup) with components 0..extent) a pos_ref_range, its const variant and a pos_range are created once; then one of {nothing, write all cells through the grid, '
+         'swap / copy-assign / move-assign with a grid of every size, assign the result of resize to every size} is applied to the grid and the same range objects are iterated again: same position sequence and size(), '
+         'value() is the current cell of the grid object at pos() (inside its current storage, address identity, current value), writes through the range reach the grid and leave the other grid alone; skipped when the stored sup exceeds the new size. '
+         'Value categories (C08_cat.cpp, 2-D sizes 0..3 x 0..3): apply with 2 and 3 grids, map, resize with every combination of {const&, &, &&} per grid argument, instrumented cells (a move leaves a marker) and functions taking '
+         'by value / const& / && / through a category-recording observer, the same lvalue grid passed twice, fill with three function shapes: results equal the cell-wise model, lvalue grids are unchanged and their cells never reach the function as rvalues. '
+         'Oracle = explicit loops in storage order (x fastest). A case is non-trivial when at least two '
          'positions are visited (a step or carry happens) or, for N > 1, the range is empty because of exactly one component; for '
          'offset when the position is not the origin; for in_range/at_optional when the position is on or beyond the last in-range '
          'index of some axis; for resize when kept and new cells are mixed; for apply when the result is non-empty or the sizes differ '
@@ -43,4 +49,8 @@ PROP = {'title': 'Grid positions, offsets and ranges form an exact row-major bij
                  "apply with differing sizes: 'an empty grid' is read as empty()/content()==0, the dimension of the empty result is not "
                  'asserted',
                  'the order in which constructors, map, fill and resize call the user function is not asserted, only the resulting '
-                 'cells and the number of calls']}
+                 'cells and the number of calls',
+                 'a pos_ref_range is read as a view of the grid OBJECT it was made from (pos_reference: a reference to a grid cell and its '
+                 'position): after swap/assignment it must yield the current cells of that object; after a size-changing operation it is '
+                 'only iterated again if it is empty or its stored (min, sup) lie inside the new size',
+                 'grids passed as rvalues may be left in any state and are not inspected; moved-from grids are not inspected']}
